@@ -275,4 +275,12 @@ def gen_status_case(rng, bad=False):
             keys.append(k)
     links = [k for k in keys if rng.random() < 0.7] or [keys[0]]
     rng.shuffle(links)
-    return keys, links, rng.choice(STATUSES)
+    status = rng.choice(STATUSES)
+    pats = [k for k in keys if k and all(c in "0123456789Xx" for c in k)]
+    if pats and rng.random() < 0.6:     # a status that one of the documented keys matches (or nearly)
+        k = rng.choice(pats)
+        status = int("".join(rng.choice("0123456789") if c in "Xx" else c for c in k))
+        if rng.random() < 0.15:
+            status += rng.choice([1, 10, 100, -1])
+            status = max(status, 0)
+    return keys, links, status
